@@ -70,11 +70,12 @@ CHECKS = {
 
  "C10": dict(
    cat="proof",
-   text="Exit status: nano_virt --run (reference), nano_vm run_standalone and the wrapper main text emitted by the real generator at check time are each verified "
-        "against ONE spec function of (VmResult, top of stack) with vm_execute/vm_get_result arbitrary (U). Round trip deserialize(serialize(m)) = m field by field and "
-        "serialise-again idempotence on the REAL functions with the REAL CRC are bounded stand-ins (module shape bound), never counted as proved.",
-   ref="DESIGN 5/C10", note=TB + " Unbounded round trip, output equality (structural: same TRAP_PRINT branch) and wrapper blob embedding are not decided.",
-   tech="CBMC DFCC contracts on the real exit paths; bounded CBMC run of the real serializer/deserializer pair"),
+   text="FRAGMENT (exit status): nano_virt --run (reference), nano_vm run_standalone / main and the wrapper main text emitted by the real generator at check time are each "
+        "verified against ONE spec function of (VmResult, top of stack) with vm_execute/vm_get_result arbitrary (U). The round trip deserialize(serialize(m)) = m is NOT "
+        "decided (the self-composition of the real pair exhausts memory; DESIGN 10.10); the loader half of it that a contract reaches - no entry loop of nvm_deserialize stops "
+        "while a complete entry is left, and an accepted file had every section consumed exactly - is discharged under C12.deser.* / C13.deser.*.",
+   ref="DESIGN 5/C10, 10.10, 10.11", note=TB + " Round trip, output equality (structural: same TRAP_PRINT branch) and wrapper blob embedding are not decided.",
+   tech="CBMC DFCC contracts on the real exit paths of the three launchers against one spec function"),
  "C19": dict(
    cat="proof",
    text="FRAGMENT (instruction encoder only): 2-safety by self-composition of the real isa_encode for each of the 256 opcode bytes: two instructions that agree on the "
